@@ -5,14 +5,15 @@ use crate::gen::{Gen, Profile};
 use crate::ops::{Obs, Op, Out, Role, ROLES};
 use crate::oracle::{abs, AOut, Oracle};
 use crate::rng::Rng;
-use crate::tok::{self, Tok, Tok12};
+use crate::tok::{self, Tok, Tok12, C12};
 use mutringbuf::*;
 use std::collections::BTreeMap;
 use std::io::Write;
 use std::sync::atomic::Ordering;
 
 #[derive(Clone, Debug, PartialEq, Eq)]
-pub enum Universe { U64, Tok, Tok12 }
+pub enum Universe { U64, Tok, Tok12, C12 }
+impl Universe { pub fn owned(&self) -> bool { matches!(self, Universe::Tok | Universe::Tok12) } }
 
 #[derive(Clone, Debug)]
 pub struct CaseSpec {
@@ -38,7 +39,7 @@ impl CaseSpec {
             match k {
                 "conc" => c.conc = v == "1", "heap" => c.heap = v == "1", "w" => c.has_w = v == "1", "zeroed" => c.zeroed = v == "1",
                 "len" => c.len = v.parse().ok()?,
-                "uni" => c.uni = match v { "U64" => Universe::U64, "Tok" => Universe::Tok, "Tok12" => Universe::Tok12, _ => return None },
+                "uni" => c.uni = match v { "U64" => Universe::U64, "Tok" => Universe::Tok, "Tok12" => Universe::Tok12, "C12" => Universe::C12, _ => return None },
                 _ => return None,
             }
         }
@@ -93,6 +94,8 @@ pub struct Ctx<'a> {
     pub stop_on_failure: bool,
     pub uni: Universe,
     pub final_obs: Obs,
+    /// (vmem) an earlier granted window of this history crossed the physical end of the storage
+    pub seam_seen: bool,
 }
 
 enum End { Done, Resplit(bool) }
@@ -103,7 +106,9 @@ fn tags_out(op: &Op, exp: &AOut, got: &AOut) -> Vec<&'static str> {
     let mut t = vec![];
     match op {
         Avail(_) => t.push("C05"),
-        Pop | PopM | Copy | Clone | CopyS(_) | CloneS(_) | Peek | PeekS(_) | PeekA => { if success_differs { t.push("C05"); t.push("C04"); } else { t.push("C01"); } }
+        Pop | PopM | Copy | Clone | Peek => { if success_differs { t.push("C05"); t.push("C04"); } else { t.push("C01"); } }
+        // slice forms: a wrong value is also a wrong window (C06: the slice must hold exactly the ring positions requested)
+        CopyS(_) | CloneS(_) | PeekS(_) | PeekA => { if success_differs { t.push("C05"); t.push("C04"); } else { t.push("C01"); t.push("C06"); } }
         Gw(_) | Se(..) | Sa(_) | Sm(..) | Nim | Nimi | Nsm(_) => { if success_differs { t.push("C05"); t.push("C04"); } else { t.push("C01"); t.push("C06"); } }
         Push(_) | PushI(_) | PushS(_) | PushSI(_) | PushSC(_) | PushSCI(_) => { t.push("C05"); t.push("C04"); }
         _ => t.push("C04"),
@@ -141,13 +146,15 @@ impl<'a> Ctx<'a> {
             if seen(|o| matches!(o, Op::Reset(_)), &self.executed, op) && !tags.contains(&"C11") { tags.push("C11"); }
             if seen(|o| matches!(o, Op::Detach(_) | Op::Back(..) | Op::SetI(..) | Op::Sync(_) | Op::Attach(_)), &self.executed, op) && !tags.contains(&"C12") { tags.push("C12"); }
             if seen(|o| matches!(o, Op::Resplit(_)), &self.executed, op) && !tags.contains(&"C18") { tags.push("C18"); }
+            // the very first thing a freshly constructed and split buffer says about itself is wrong: construction (C18)
+            if self.executed.iter().all(|o| matches!(o, Op::Avail(_))) && !tags.contains(&"C18") { tags.push("C18"); }
         }
         self.failures.push(Failure { kind, tags, step: self.executed.len(), op: op.line(), detail });
     }
 
     /// Token ids are allocated at execution time: rewrite the values of pushes for owned universes.
     fn concretize(&mut self, op: Op) -> Op {
-        if self.uni == Universe::U64 { return op; }
+        if !self.uni.owned() { return op; }
         match op {
             Op::Push(_) => Op::Push(tok::fresh_id()),
             Op::PushI(_) => Op::PushI(tok::fresh_id()),
@@ -168,7 +175,9 @@ impl<'a> Ctx<'a> {
         let got = abs(op, out);
         let expo = exp.out.clone().unwrap();
         match &expo { AOut::None | AOut::Err(_) => self.stats.refused += 1, AOut::Item(_) | AOut::Vals(_) | AOut::Granted(_) => self.stats.granted += 1, _ => {} }
-        let seam = if crate::gen::straddles(&before, op) { " [window crosses the physical end: index+count > len]" } else { "" };
+        let seam = if crate::gen::straddles(&before, op) { " [window crosses the physical end: index+count > len]" }
+            else if self.seam_seen { " [after an earlier granted window crosses the physical end: index+count > len]" } else { "" };
+        if crate::gen::straddles(&before, op) && !matches!(expo, AOut::None | AOut::Err(_)) { self.seam_seen = true; }
         if got != expo { let mut t = tags_out(op, &expo, &got); if cfg!(feature = "vmem") { t.push("C17"); } self.fail("oracle", t, op, format!("outcome: expected {:?}, implementation returned {:?}{seam}", expo, out)); }
         // geometry of granted windows (C06)
         if let Out::Win { ho, hl, to, tl, vals } = out {
@@ -178,7 +187,7 @@ impl<'a> Ctx<'a> {
                 let n = match op { Op::Se(_, n) | Op::Nsm(n) | Op::PeekS(n) => *n, Op::Sa(_) | Op::PeekA => before.avail(r),
                     Op::Sm(_, k) if *k > 0 => { let a = before.avail(r); a - a % k } _ => vals.len() };
                 #[cfg(not(feature = "vmem"))]
-                let (eho, ehl, eto, etl) = if idx + n >= len { (idx, len - idx, 0, idx + n - len) } else { (idx, n, 0, 0) };
+                let (eho, ehl, eto, etl) = if idx + n >= len { (idx, len.saturating_sub(idx), 0, (idx + n).saturating_sub(len)) } else { (idx, n, 0, 0) };
                 #[cfg(feature = "vmem")]
                 let (eho, ehl, eto, etl) = (idx, n, 0, 0);
                 if (*ho, *hl, *to, *tl) != (eho, ehl, eto, etl) || ho + hl > 2 * len || to + tl > len || vals.len() != n {
@@ -220,7 +229,11 @@ impl<'a> Ctx<'a> {
             let (ans, spec) = match ans.split_once(" SPECDIFF ") { Some((a, s)) => (a.to_string(), Some(s.to_string())), None => (ans, None) };
             if let Some(s) = spec { self.fail("spec", vec![], op, format!("Lean machine and Lean spec disagree: {s}")); }
             let mine = format!("{} | {}", out.line(), obs.line());
-            if ans != mine { self.fail("model", vec![], op, format!("implementation: {mine}\n        model: {ans}")); }
+            if ans != mine {
+                // (vmem) contents seen through a window across the physical end, or after one, depend on the mirror: same marker as the oracle's
+                let seam = if cfg!(feature = "vmem") && (crate::gen::straddles(&before, op) || self.seam_seen) { " [window crosses the physical end: index+count > len]" } else { "" };
+                self.fail("model", vec![], op, format!("implementation: {mine}\n        model: {ans}{seam}"));
+            }
         }
         self.final_obs = obs.clone();
     }
@@ -270,12 +283,17 @@ fn session<'b, B: MutRB<Item = T>, T: ClonePush, const W: bool>(
 }
 
 fn init_vals(len: usize, zeroed: bool, uni: &Universe) -> Vec<u64> {
-    if zeroed { vec![0; len] } else if *uni == Universe::U64 { (0..len as u64).map(|i| 100 + i).collect() } else { (0..len).map(|_| tok::fresh_id()).collect() }
+    if zeroed { vec![0; len] } else if !uni.owned() { (0..len as u64).map(|i| 100 + i).collect() } else { (0..len).map(|_| tok::fresh_id()).collect() }
 }
 
 macro_rules! heap_case {
     ($Buf:ident, $T:ty, $spec:expr, $ctx:expr, $vals:expr) => {{
-        let buf: $Buf<$T> = if $spec.zeroed { unsafe { $Buf::<$T>::new_zeroed($spec.len) } } else { $Buf::<$T>::from($vals.iter().map(|v| <$T as crate::tok::Item>::make(*v)).collect::<Vec<$T>>()) };
+        // every other buffer is built from a vector with spare capacity: the buffer's length is the vector's length, not its capacity
+        let buf: $Buf<$T> = if $spec.zeroed { unsafe { $Buf::<$T>::new_zeroed($spec.len) } } else {
+            let mut v: Vec<$T> = Vec::with_capacity($spec.len + if $spec.conc { 5 } else { 0 });
+            v.extend($vals.iter().map(|v| <$T as crate::tok::Item>::make(*v)));
+            $Buf::<$T>::from(v)
+        };
         if $spec.has_w { let (p, w, c) = buf.split_mut(); session::<_, $T, true>(p, Some(w), c, $ctx, None, None); }
         else { let (p, c) = buf.split(); session::<_, $T, false>(p, None, c, $ctx, None, None); }
     }};
@@ -339,9 +357,9 @@ pub fn run_case<'a>(spec: &CaseSpec, source: Source<'a>, driver: Option<&'a mut 
     tok::reset_ledger();
     FREED.store(0, Ordering::SeqCst);
     let vals = init_vals(spec.len, spec.zeroed, &spec.uni);
-    let owned = spec.uni != Universe::U64;
+    let owned = spec.uni.owned();
     let oracle = Oracle::new(vals.clone(), spec.has_w, spec.heap, owned);
-    let mut ctx = Ctx { oracle, source, driver, failures: vec![], executed: vec![], stats: Stats::default(), log, stop_on_failure, uni: spec.uni.clone(), final_obs: Obs::default() };
+    let mut ctx = Ctx { oracle, source, driver, failures: vec![], executed: vec![], stats: Stats::default(), log, stop_on_failure, uni: spec.uni.clone(), final_obs: Obs::default(), seam_seen: false };
     if let Some(l) = ctx.log.as_mut() { let _ = writeln!(l, "{}", spec.header()); let _ = l.flush(); }
     if let Some(d) = ctx.driver.as_mut() {
         let line = format!("{} {} {} {} {} {}", if cfg!(feature = "vmem") { "initvm" } else { "init" }, spec.len, spec.has_w as u8, spec.heap as u8, owned as u8, vals.iter().map(|v| v.to_string()).collect::<Vec<_>>().join(" "));
@@ -354,6 +372,7 @@ pub fn run_case<'a>(spec: &CaseSpec, source: Source<'a>, driver: Option<&'a mut 
             Universe::U64 => universe_case!(u64, spec, ctxr, vals),
             Universe::Tok => universe_case!(Tok, spec, ctxr, vals),
             Universe::Tok12 => universe_case!(Tok12, spec, ctxr, vals),
+            Universe::C12 => universe_case!(C12, spec, ctxr, vals),
         }
     }
     // ownership ledger: by now every token ever created must have been destroyed exactly once
